@@ -210,10 +210,11 @@ state; the cached block result is dropped. -/
 theorem reject_leaves_unchanged {σ β ρ ε : Type} [DecidableEq β] [DecidableEq ρ] (S : Sys σ β ρ ε)
     (n : Node σ β ρ) (b : β) :
     ((∀ r, (validate S n b).2 ≠ .ok r) → (validate S n b).1 = roundInterrupt n) ∧
-    ((∀ r, (commit S n b).2 ≠ .ok r) → (S.height b = n.height → n.cached ≠ some b) →
-      (commit S n b).1.committed = n.committed ∧ (commit S n b).1.height = n.height ∧
-      (commit S n b).1.archive = n.archive ∧
-      (S.height b = n.height → (commit S n b).1.working = n.committed)) :=
-  ⟨Canopy.C03.validate_reject S n b, Canopy.C03.commit_reject_unchanged S n b⟩
+    (∀ (sync : Bool) (v : Nat), (∀ r, (commit S n b sync v).2 ≠ .ok r) →
+      (S.height b = n.height → n.cached ≠ some b) →
+      (commit S n b sync v).1.committed = n.committed ∧ (commit S n b sync v).1.height = n.height ∧
+      (commit S n b sync v).1.archive = n.archive ∧
+      (S.height b = n.height → (commit S n b sync v).1.working = n.committed)) :=
+  ⟨Canopy.C03.validate_reject S n b, fun sync v => Canopy.C03.commit_reject_unchanged S n b sync v⟩
 
 end Canopy.C07
